@@ -93,6 +93,27 @@ PACKET = [
     H("c01_pk_lax_headers_ip", "c01::packet", tier="thorough", unwind=5, timeout=7200, bounds="every byte string of length 0..=56, exact-size object", encodes=["LaxPacketHeaders::from_ip"]),
 ]
 
+# harnesses of other modules that run the same kind of decoder over an exact-size buffer; C01 / C02 read their
+# memory-safety / panic class results (DESIGN 2.2), the owning property reads its oracle assertions
+def _shared():
+    out = []
+    try:
+        from reg import c13
+        want = ("c13_iter_step", "c13_iter_progress", "c13_iter_exhausted", "c13_iter_walk_6", "c13_header_set_options_raw",
+                "c13_header_slice_options", "c13_options_from_slice")
+        out += [h for h in c13.PROP["harnesses"] if h["name"] in want]
+    except Exception:
+        pass
+    try:
+        from reg import c17
+        out += [h for h in c17.PROP["harnesses"] if h["tier"] == "quick"]
+    except Exception:
+        pass
+    return out
+
+
+SHARED = _shared()
+
 PROP = {
     "claim": "for every byte string up to the per-harness length N, placed in a heap object of exactly its length, the "
              "decoder, all accessors, conversions and iterators perform no access outside the object (CBMC pointer "
@@ -100,5 +121,5 @@ PROP = {
              "unreachable_unchecked, debug_assert in *_unchecked) and every returned sub-slice lies inside the input",
     "outside": "inputs longer than N; reads of uninitialised memory; aliasing-model UB",
     "assumptions": [],
-    "harnesses": LINK + NET + TRANSPORT + PACKET,
+    "harnesses": LINK + NET + TRANSPORT + SHARED + PACKET,
 }
